@@ -48,6 +48,7 @@ type Oracle struct {
 	Why string
 	// Mech counts the mechanisms that took part in the decision (evidence).
 	Mech map[string]int
+	memo map[memoKey]Verdict
 }
 
 func NewOracle(s *Schema) *Oracle { return &Oracle{S: s, Mech: map[string]int{}} }
@@ -68,6 +69,7 @@ func (o *Oracle) reject(why string) Verdict {
 // Accepts decides the whole document.
 func (o *Oracle) Accepts(v *Val) Verdict {
 	o.Why = ""
+	o.memo = nil
 	return o.node(o.S.Root, v, 0)
 }
 
@@ -91,7 +93,27 @@ func alternatives(n *Node) []OrItem {
 	return nil
 }
 
+type memoKey struct {
+	n *Node
+	v *Val
+}
+
+// node memoises on (schema node, value): unions nested along a cycle of the type graph would
+// otherwise re-evaluate the same pair exponentially often.
 func (o *Oracle) node(n *Node, v *Val, depth int) Verdict {
+	k := memoKey{n, v}
+	if r, ok := o.memo[k]; ok {
+		return r
+	}
+	r := o.nodeUncached(n, v, depth)
+	if o.memo == nil {
+		o.memo = map[memoKey]Verdict{}
+	}
+	o.memo[k] = r
+	return r
+}
+
+func (o *Oracle) nodeUncached(n *Node, v *Val, depth int) Verdict {
 	if depth > maxDepth {
 		return Unspec
 	}
@@ -831,5 +853,6 @@ func hex4(s string) (rune, bool) {
 // AcceptsNode decides one value against one node of the schema.
 func (o *Oracle) AcceptsNode(n *Node, v *Val) Verdict {
 	o.Why = ""
+	o.memo = nil
 	return o.node(n, v, 0)
 }
